@@ -247,7 +247,9 @@ class _InstallWrapper(IpcCommand):
         self.parser.set_defaults(
             insoptions=self.insoptions_default, diroptions=self.diroptions_default
         )
+        self._init_installers()
 
+    def _init_installers(self):
         # initialize file/dir creation coroutines
         self.install = self._install().send
         self.install_dirs = self._install_dirs().send
@@ -255,6 +257,10 @@ class _InstallWrapper(IpcCommand):
         self.install_from_dirs = self._install_from_dirs().send
 
     def parse_args(self, *args, **kwargs):
+        # every request starts from fresh installers: a coroutine that raised
+        # (failed request) is finished for good, and a previous request may have
+        # switched to the external `install` fallback
+        self._init_installers()
         args = super().parse_args(*args, **kwargs)
         self.parse_install_options()
         return args
